@@ -27,6 +27,7 @@ import (
 	"io"
 	"os"
 	"os/exec"
+	"path/filepath"
 	"regexp"
 	"strconv"
 	"strings"
@@ -479,13 +480,23 @@ type worker struct {
 	out *bufio.Reader
 }
 
-func startWorker(tier string) (*worker, error) {
-	exe, err := os.Executable()
-	if err != nil {
-		return nil, err
+func startWorker(tier string) (*worker, error) { return startWorkerExe("", tier, nil) }
+
+// startWorkerExe starts a worker from another binary (the race-detector build), its stderr appended to errTo.
+func startWorkerExe(exe, tier string, errTo *os.File) (*worker, error) {
+	if exe == "" {
+		e, err := os.Executable()
+		if err != nil {
+			return nil, err
+		}
+		exe = e
 	}
 	cmd := exec.Command(exe, "-child", "1", "-tier", tier)
 	cmd.Stderr = os.Stderr
+	if errTo != nil {
+		cmd.Stderr = errTo
+		cmd.Env = append(os.Environ(), "GORACE=exitcode=0")
+	}
 	in, err := cmd.StdinPipe()
 	if err != nil {
 		return nil, err
@@ -509,6 +520,8 @@ type dispatcher struct {
 	w     *worker
 	tier  string
 	bound time.Duration
+	exe   string   // "" = this binary
+	errTo *os.File // stderr of the workers (race runs)
 }
 
 func (d *dispatcher) exec(line string) string {
@@ -517,7 +530,7 @@ func (d *dispatcher) exec(line string) string {
 	}
 	for attempt := 0; attempt < 2; attempt++ {
 		if d.w == nil {
-			w, err := startWorker(d.tier)
+			w, err := startWorkerExe(d.exe, d.tier, d.errTo)
 			if err != nil {
 				fmt.Fprintln(os.Stderr, "c07: cannot start worker:", err)
 				return line + " => invalid"
@@ -591,7 +604,7 @@ func Run(args []string) int {
 			if len(t) == 0 {
 				continue
 			}
-			if t[0] == "case" || t[0] == "end" {
+			if t[0] == "case" || t[0] == "end" || t[0] == "race" {
 				out.Line(l)
 				out.Flush()
 				continue
@@ -609,5 +622,81 @@ func Run(args []string) int {
 		out.Line("end")
 		out.Flush()
 	}
+	if fl.Tier == "thorough" {
+		raceCases(out, r.Fork(), bound)
+	}
 	return 0
+}
+
+// raceCases (thorough tier): rebuild this harness with the Go race detector and repeat real-task cases under
+// it (one of the parallel seed jobs of a check run does it: lock file in the run's scratch dir). The cases are
+// judged like all others; a final case reports how many data races the detector printed.
+func raceCases(out *kit.Out, r *kit.Rand, bound time.Duration) {
+	scratch := os.Getenv("VERIF_SCRATCH")
+	if scratch == "" {
+		return
+	}
+	lock, err := os.OpenFile(filepath.Join(scratch, "c07-race.lock"), os.O_CREATE|os.O_EXCL|os.O_WRONLY, 0o644)
+	if err != nil {
+		return // another seed job of this run does it
+	}
+	lock.Close()
+	report := func(obs string) {
+		out.Line("case race")
+		out.Line("race => " + obs)
+		out.Line("end")
+		out.Flush()
+	}
+	exe, err := os.Executable()
+	if err != nil {
+		report("err:exe")
+		return
+	}
+	bin := filepath.Join(scratch, "vh-c07-race")
+	build := exec.Command("go", "build", "-race", "-tags", "verif", "-o", bin, "./cmd/c07")
+	build.Dir = filepath.Join(filepath.Dir(exe), "..", "harness")
+	if _, err := os.Stat(build.Dir); err != nil {
+		build.Dir = "/verif/harness"
+	}
+	build.Env = append(os.Environ(), "GOFLAGS=-mod=mod", "GOPROXY=off", "CGO_ENABLED=1")
+	if msg, err := build.CombinedOutput(); err != nil {
+		fmt.Fprintln(os.Stderr, "c07: race build failed:", err, string(msg))
+		report("err:build")
+		return
+	}
+	defer os.Remove(bin)
+	errPath := filepath.Join(scratch, "c07-race.stderr")
+	errTo, err := os.Create(errPath)
+	if err != nil {
+		report("err:stderr")
+		return
+	}
+	d := &dispatcher{tier: "thorough", bound: 4 * bound, exe: bin, errTo: errTo}
+	k := 0
+	for i := 0; k < 24 && i < 400; i++ {
+		chain, stop, class, n := genCase(r, i, "quick")
+		// the known deadlocks cost a worker each and add nothing under the race detector
+		if strings.Contains(chain, "loop") || (strings.Contains(chain, "udf") && strings.Contains(chain, "fail")) {
+			continue
+		}
+		if n > 1500 {
+			n = 1000 + n%500
+			if class == "gated" {
+				continue
+			}
+		}
+		out.Linef("case rc%d", k)
+		out.Line(d.exec(opLine(chain, stop, class, n)))
+		out.Line("end")
+		out.Flush()
+		k++
+	}
+	d.close()
+	errTo.Close()
+	b, _ := os.ReadFile(errPath)
+	races := strings.Count(string(b), "WARNING: DATA RACE")
+	if races > 0 {
+		fmt.Fprintln(os.Stderr, string(b))
+	}
+	report(fmt.Sprintf("%d %d", k, races))
 }
